@@ -132,6 +132,7 @@ func checkC02(cx *Ctx, r *Report) {
 		r.Check(strings.HasSuffix(fx.T(got[0]), "<provider.Response>.AcsUrl") && strings.HasSuffix(fx.T(got[1]), "<provider.Response>.ProtocolBinding"), "R-VFG", "sso:selection-results", w.InstrPos(c), "result #0 -> Response.AcsUrl, result #1 -> Response.ProtocolBinding", fmt.Sprintf("the selection's results are stored to %q / %q", got[0], got[1]))
 	}
 
+	cx.checkSelectionResultsOnly(r)
 	// --- callback entry ----------------------------------------------------------------------------
 	vc := cx.vflow(kCallback)
 	cx.checkFieldSinks(r, "R-VFG", "callback", vc, []fieldSink{
@@ -181,29 +182,14 @@ func checkC02(cx *Ctx, r *Report) {
 	} else {
 		r.Fail("R-VFG", "sendBackResponse:form-action", w.FnPos(sb), "the form action is not filled in sendBackResponse")
 	}
-	nRedir := 0
+	cx.checkRedirectTarget(r, "R-VFG")
 	for _, c := range callsIn(sb) {
 		switch calleeName(c) {
 		case "net/http.Redirect":
-			nRedir++
-			okURL := false
-			if sc, ok := c.Common().Args[2].(*ssa.Call); ok && calleeName(sc) == "fmt.Sprintf" {
-				f, _ := constString(sc.Call.Args[0])
-				if strings.HasPrefix(f, "%s?") {
-					if e := varargElem(sc.Call.Args[1], 0); e != nil {
-						ll := lvf.Labels(e).leaves()
-						okURL = len(ll) == 1 && ll[0] == "param:provider.(*Response).sendBackResponse/#0.AcsUrl"
-					}
-				}
-			}
-			r.Check(okURL, "R-VFG", "sendBackResponse:redirect-target", w.InstrPos(c), "redirects to Response.AcsUrl + '?' + query", "the redirect target is not Response.AcsUrl followed by the query")
 			cx.requireBindingGuard(r, c, cRedirect, "redirect")
 		case "(*html/template.Template).Execute":
 			cx.requireBindingGuard(r, c, cPost, "form")
 		}
-	}
-	if nRedir == 0 {
-		r.Fail("R-VFG", "sendBackResponse:redirect-target", w.FnPos(sb), "no redirect delivery found in sendBackResponse")
 	}
 	// a reply rendered through a pooled buffer must not carry a previous reply
 	cx.checkPoolEscape(r)
